@@ -6,6 +6,7 @@ import (
 	"unsafe"
 
 	"github.com/tencent/goom/internal/hack"
+	"github.com/tencent/goom/internal/simhook"
 	"github.com/tencent/goom/internal/unexports2"
 )
 
@@ -131,5 +132,6 @@ func GenCallableMethod(ctx *IContext, apply interface{}, proxy PFunc) uintptr {
 	if err != nil {
 		panic(err)
 	}
+	simhook.Yield(simhook.SiteIfaceStubMade, 0)
 	return methodCaller
 }
